@@ -7,6 +7,7 @@ import (
 	"encoding/hex"
 	"fmt"
 	"os"
+	"strconv"
 	"strings"
 	"sync"
 	"time"
@@ -194,7 +195,7 @@ func runC03(c *Ctx) {
 			if cc.cl.IsClosed() {
 				state = "closed by the proxy"
 			}
-			r.Violate(mon.Violation{Signature: sig, Detail: fmt.Sprintf("a well-formed %s %s request (%s, body %d bytes on the wire, filler class %s size %s) was not forwarded to any backend; client connection %s; reply: %v %v", desc.Version, desc.OpCode, compName, len(sent.Body), desc.Content, desc.SizeClass, state, replyInfoComp(comp, reply).Kind, err),
+			r.Violate(mon.Violation{Signature: sig, Detail: fmt.Sprintf("a well-formed %s %s request (%s, body %d bytes on the wire, filler class %s size %s) was not forwarded to any backend; client connection %s; reply: %v %v", desc.Version, desc.OpCode, compName, len(sent.Body), desc.Content, desc.SizeClass, state, replyInfoComp(comp, reply).Kind+" "+strconv.Quote(replyInfoComp(comp, reply).ErrMsg), err),
 				Scenario: scenario, Witness: map[string]interface{}{"spec_seed": spec.Seed, "cell": cell, "wire_body_len": len(sent.Body)}})
 			continue
 		}
